@@ -105,6 +105,7 @@ WRITER_SETS = [
     [{"kind": "multi_append", "batches": [[{"x": 100}], [{"x": 101}]]}, {"kind": "append", "rows": [{"x": 200}]},
      {"kind": "delete_snapshot", "which": "old"}],
 ]
+REPLACE_SET = [{"kind": "replace_txn", "rows": [{"x": 300}, {"x": 301}]}]
 
 
 def window_chooser(writer: str, reader: str, k: int):
@@ -272,6 +273,23 @@ def analyse(case: Dict[str, Any], res: P.CaseResult, readers: List[int]) -> Tupl
                 inside = [v in st["rows"] for v in vals]
                 if any(inside) and not all(inside):
                     viol.append(f"pointer version {k} contains part of a multi-operation transaction: {st['rows']}")
+    # a replace transaction (delete a file + append replacements) is one commit: every version shows it whole or not at all
+    for op in case["ops"]:
+        if op["kind"] == "replace_txn" and res.states:
+            new = [r["x"] for r in op["rows"]]
+            first = res.states[0]["rows"] or []
+            last = res.states[-1]["rows"] or []
+            removed = [v for v in first if v not in last]
+            for k, st in enumerate(res.states):
+                rows = st["rows"]
+                if rows is None:
+                    continue
+                has_new = [v in rows for v in new]
+                has_old = [v in rows for v in removed]
+                pre = not any(has_new) and all(has_old)
+                post = all(has_new) and not any(has_old)
+                if not (pre or post):
+                    viol.append(f"pointer version {k} shows a part of a delete+append transaction: rows {rows} (replacements {new}, removed {removed})")
     return viol, bad
 
 
@@ -338,6 +356,19 @@ def run(ctx) -> None:
                     ctx.violation(f"reader-between-steps:{api}", v,
                                   {"case": c01._case_json(case), "deviations": [("between", rname, r, wnames)], "schedule": res.schedule})
                 bad_all.extend(bad)
+    # a delete+append ("replace") transaction: one commit point; the reader between every two writer steps and after each
+    for ai, api in enumerate(APIS):
+        if quick and ai % 3 != 1:
+            continue
+        ops = REPLACE_SET + [{"kind": "read", "apis": [api] * 90}]
+        case = {"ops": ops, "clock": "tick", "topology": "separate", "yield_filter": reader_filter, "track_states": "pointer"}
+        res = P.run_case(ctx.scratch, c01._fix_case(case), alternate_chooser("A0", "A1"), tag="c02p")
+        total += 1
+        ctx.count(1, ("replace", api))
+        viol, bad = analyse(case, res, [1])
+        for v in viol:
+            ctx.violation(f"reader-replace-txn:{api}", v, {"case": c01._case_json(case), "deviations": [("alternate", "A0", "A1")], "schedule": res.schedule})
+        bad_all.extend(bad)
     # two writers on separate handles on a clock that does not advance (every timestamp-derived name and stamp collides unless
     # something else keeps them apart), one reader reading between their steps
     two = [{"kind": "append", "rows": [{"x": 100}]}, {"kind": "multi_append", "batches": [[{"x": 200}], [{"x": 201}]]}]
